@@ -20,6 +20,9 @@ def jobs(tier):
         J.append(conc("2,0,0,0" if q else "3,0,0,0", hmap=hm, init=init, enum=3, nenum=2, nops=1, **base))
         J.append(conc("1,1,0,0" if q else "2,1,0,0", hmap=hm, init=init, enum=3, nenum=2, nops=1, **base))
         J.append(conc("1,0,0,0" if q else "2,0,0,0", workers=16, hmap=hm, init=init, enum=3, nenum=3, nops=1, **base))
+    # deferred reclamation: remove, go on (re-add, remove again), free everything one grace period after the last operation
+    J.append(conc("2,0,0,0", hmap=0, reclaim=2, prog0=prog((K_DELN, 0), (K_ADD, 0), (K_DEL, 0)), prog1=prog((K_DELN, 0), (K_WALKALL, 0)), **base))
+    J.append(conc("1,0,0,0" if q else "2,0,0,0", workers=16, hmap=0, init=1, enum=3, nenum=2, nops=2, reclaim=2, **base))
     # three removers of the same node + a traversal
     J.append(conc("2,0,0,0", workers=16, hmap=0, prog0=prog((K_DELN, 0)), prog1=prog((K_REPLN, 0)), prog2=prog((K_DELN, 0)),
                   prog3=prog((K_WALKALL, 0)), **base))
